@@ -8,10 +8,10 @@ import OdxVerif.Props.C01
 namespace OdxVerif.Codec
 
 /-- **Static length.** -/
-theorem C08_static_length_partial (ovs : List (Obj × Int)) (hlen : ovs.length ≤ 4000) (values : List (String × PVal))
+theorem C08_static_length_partial (ovs : List (Obj × IVal)) (hlen : ovs.length ≤ 4000) (values : List (String × PVal))
     (trig : Option Bytes)
-    (hok : ∀ ov ∈ ovs, ov.1.ok ∧ Spec.representable ov.1.enc ov.1.bl ov.2)
-    (hlook : ∀ ov ∈ ovs, lookup ov.1.name values = some (.atom (.int ov.2)))
+    (hok : ∀ ov ∈ ovs, ov.1.ok ∧ ov.1.inRange ov.2)
+    (hlook : ∀ ov ∈ ovs, lookup ov.1.name values = some (.atom ov.2))
     (hknown : values.any (fun kv => !((ovs.map fun ov => ov.1.toParam).any fun p => p.name == kv.1)) = false)
     (pdu : Bytes) (w : Nat)
     (henc : encodeMessage none (ovs.map fun ov => ov.1.toParam) (.dict values) trig true = .ok (pdu, w)) :
@@ -27,8 +27,8 @@ theorem C08_required_omission_fails (ps : List Param) (values : List (String × 
   encodeMessage_missing ps values trig h
 
 /-! non-vacuity -/
-example : (Dop.struct none (exObjs.map fun ov => ov.1.toParam)).staticBitLen = some 40 := by decide
+example : (Dop.struct none (exObjs.map fun ov => ov.1.toParam)).staticBitLen = some 56 := by decide
 example : ∃ p ∈ exObjs.map (fun ov => ov.1.toParam), (∃ d, p.kind = .value d none) ∧ lookup p.name [("a", PVal.atom (.int 1))] = none :=
-  ⟨(⟨"b", some 3, none, some .sm, false, 16⟩ : Obj).toParam, by simp [exObjs], ⟨_, rfl⟩, by simp [Obj.toParam, Param.name, lookup]⟩
+  ⟨(⟨"b", some 3, none, some .sm, false, 16, .int32⟩ : Obj).toParam, by simp [exObjs], ⟨_, rfl⟩, by simp [Obj.toParam, Param.name, lookup]⟩
 
 end OdxVerif.Codec
